@@ -63,10 +63,19 @@ fn gevent() -> impl Strategy<Value = GEvent> {
 
 fn strategy() -> impl Strategy<Value = Case> {
     let fault = prop_oneof![6 => Just(None), 2 => prop::sample::select(vec![500u16, 503, 400, 404]).prop_map(|c| Some(PostFault::Status(c))), 1 => Just(Some(PostFault::Reset)), 1 => (1u8..30).prop_map(|d| Some(PostFault::Late(d)))];
-    (prop::collection::vec(prop::collection::vec(gevent(), 0..14), 0..5), prop_oneof![3 => Just(vec![]), 2 => prop::collection::vec(fault, 1..9)], prop::option::weighted(0.3, (-2i8..=2, 1u8..=5))).prop_map(|(files, faults, exact)| Case { files, faults, exact })
+    (prop::collection::vec(prop::collection::vec(gevent(), 0..14), 0..5), prop_oneof![
+        6 => Just(vec![]),
+        4 => prop::collection::vec(fault, 1..9),
+        // a batch that is refused on all five attempts (it is given up), after 0-3 accepted POSTs
+        2 => (0usize..4, 5usize..8, prop::sample::select(vec![500u16, 503, 404])).prop_map(|(k, n, code)| {
+            let mut v: Vec<Option<PostFault>> = vec![None; k];
+            v.extend(std::iter::repeat(Some(PostFault::Status(code))).take(n));
+            v
+        }),
+    ], prop::option::weighted(0.3, (-2i8..=2, 1u8..=5))).prop_map(|(files, faults, exact)| Case { files, faults, exact })
 }
 
-const RULE: &str = "generator: 0-4 event files x 0-13 events; message text = any Unicode scalar values except controls, drawn heavily from markup (< > & ' \" ]]> <![CDATA[ &amp; </Event> <Param .../>), non-BMP characters and long runs sized so that batch totals land around 64 KiB and single events land just under / over 64 KiB once wrapped; every event carries a unique marker in OperationId; the telemetry endpoint answers the successive POSTs by a generated pattern (accept / 5xx,4xx / connection reset / accept late). The real EventReader runs on a paused-clock runtime against a raw mock that also serves goal state, shared config and instance info. oracle: every POST body is < 65536 bytes and parses with xml-rs as TelemetryData/Provider/Event*; each event's character data parsed again as a fragment is a list of Param elements whose Context1 / Context3 / TaskName values decode to exactly the original strings; over all ACCEPTED POSTs no marker occurs twice and all POSTs containing a marker are byte-identical (re-sends of one batch); an event that cannot fit alone appears in no POST; every other event is posted and, unless the host refused all five attempts of its batch, accepted; the run ends and every consumed .json file is gone. non-trivial: a batch boundary was crossed, or an oversize event or a failure pattern is present, or a message contains markup; distinct by hash of the case.";
+const RULE: &str = "generator: 0-4 event files x 0-13 events; message text = any Unicode scalar values except controls, drawn heavily from markup (< > & ' \" ]]> <![CDATA[ &amp; </Event> <Param .../>), non-BMP characters and long runs sized so that batch totals land around 64 KiB and single events land just under / over 64 KiB once wrapped; every event carries a unique marker in OperationId; the telemetry endpoint answers the successive POSTs by a generated pattern (accept / 5xx,4xx / connection reset / accept late; one case in six: 0-3 accepted POSTs followed by 5-7 refusals in a row, i.e. a batch that is given up). The real EventReader runs on a paused-clock runtime against a raw mock that also serves goal state, shared config and instance info. oracle: every POST body is < 65536 bytes and parses with xml-rs as TelemetryData/Provider/Event*; each event's character data parsed again as a fragment is a list of Param elements whose Context1 / Context3 / TaskName values decode to exactly the original strings; over all ACCEPTED POSTs no marker occurs twice and all POSTs containing a marker are byte-identical (re-sends of one batch); an event that cannot fit alone appears in no POST; every other event is posted and, unless the host refused all five attempts of its batch, accepted; the run ends and every consumed .json file is gone. non-trivial: a batch boundary was crossed, or an oversize event or a failure pattern is present, or a message contains markup; distinct by hash of the case.";
 
 struct HostState {
     faults: VecDeque<Option<PostFault>>,
